@@ -337,7 +337,11 @@ def _install():
 
 
 class _Tolerance:
-    """beta_tolerance default 1/4, as in the symbolic harness."""
+    """beta_tolerance default as in the symbolic harness (1/4 unless the
+    configuration says otherwise)."""
+
+    def __init__(self, tol=0.25):
+        self.tol = tol
 
     def __enter__(self):
         from aspire.samplers.smc.base import SMCSampler
@@ -348,7 +352,7 @@ class _Tolerance:
         self.old = fn.__defaults__
         names = list(inspect.signature(fn).parameters)
         d = list(fn.__defaults__)
-        d[names.index("beta_tolerance") - (len(names) - len(d))] = 0.25
+        d[names.index("beta_tolerance") - (len(names) - len(d))] = self.tol
         fn.__defaults__ = tuple(d)
 
     def __exit__(self, *a):
@@ -501,7 +505,7 @@ def replay_loop(cex, props):
     info = {}
     tmp = tempfile.mkdtemp(prefix="aspire-verif-replay-")
     try:
-        with _Tolerance():
+        with _Tolerance(cfg.get("tol", 0.25)):
             if flow == "plain":
                 w = World(cex, model).build().run()
                 bad += w.bad
@@ -525,7 +529,7 @@ def _replay_resume(cex, model, props, bad, tmp):
     bad += ref.bad
     info = oracle_run(ref, props, bad, tag="[ref]")
     info["resumed"] = []
-    routes = cfg.get("routes", ["bytes"])
+    routes = cfg.get("routes", ["bytes", "live_dict"])
     for k, ck in enumerate(ref.checkpoints):
         for route in routes:
             src = ck["bytes"]
